@@ -540,3 +540,7 @@ impl<C: Client> std::fmt::Debug for MqttRunner<C> {
 #[cfg(feature = "verif-hooks")]
 #[path = "verif_hooks_c17.rs"]
 pub mod verif_hooks_c17;
+
+#[cfg(feature = "verif-hooks")]
+#[path = "verif_hooks_mqttconn.rs"]
+pub mod verif_hooks_mqttconn;
